@@ -20,7 +20,8 @@ Stream-level guard `state == IDLE` of the NEW object is always true):
                           stream, nothing else touched; its reject is returned as is, None becomes <X>_Response
 
 The table of end points is a list with a concrete spine of 0..2 end points and the stream table a dict with 0..1 other
-entries under symbolic keys (bounded, said in the notes); the ACP SEID is any integer.
+entries under symbolic keys for Set Configuration (the other handlers never touch it: frame condition; it is empty there) --
+bounded, said in the notes; the ACP SEID is any integer.
 """
 from bumble import avdtp
 from pyvc.contracts import Any, ConcList, Inst, Int, Opt, contract, implies, model, same
@@ -167,4 +168,112 @@ for _n in N_ENDPOINTS:
             modifies=acp_mod(_n),
             inline=ACP_INLINE + ['Stream.on_set_configuration_command'],
             note=f'bounded: {_n} local end points, {_m} other entries in Protocol.streams',
+        )
+
+
+# ---------------------------------------------------------------------------
+# one-SEID procedures on an existing stream: reconfigure / open / close / abort
+# ---------------------------------------------------------------------------
+from contracts.c19_stream import ABORTING, CLOSING, L_ON_ABORT, L_ON_CLOSE, L_ON_OPEN, L_ON_RECONFIGURE, OPEN, STREAMING  # noqa: E402
+
+model('bumble.avdtp:Reconfigure_Command#acp', fields=dict(acp_seid=Int, capabilities=Any))
+
+
+def stream_mod(n):
+    return ['ghost.calls'] + [f'self.local_endpoints[{i}].stream.{f}' for i in range(n) for f in ('state', 'rtp_channel', 'protocol.channel_acceptor')]
+
+
+def delegated(legal, target, hook, response_cls, never_refused=False):
+    """what the handler does to the end point's stream `s` (state `s0`, media channel `ch0` at entry): from the table in
+    notes/C19/NOTES.md, i.e. the contract of Stream.on_<x>_command"""
+
+    def f(s, s0, ch0, res, old, ghost):
+        ok = legal(s0)
+        accepted = ok and (never_refused or ghost.local_answer is None)
+        return [
+            # not legal in the current state: refused without changing it, the local end point is not asked
+            ok or (res is not None and not isinstance(res, response_cls) and s.state == s0 and ghost.calls == old.ghost.calls),
+            (not ok) or ghost.calls == old.ghost.calls + [hook],
+            (not ok) or accepted or (res == ghost.local_answer and s.state == s0),
+            (not accepted) or (isinstance(res, response_cls) and s.state == target(ch0)),
+        ]
+
+    return f
+
+
+DELEGATED_NAMES = ['illegal-refused-state-unchanged', 'legal-local-endpoint-asked-once', 'local-refusal-returned-state-unchanged', 'accepted-response-and-target-state']
+
+
+def guarded(hit, clauses):
+    out = []
+    for c in clauses:
+        out = out + [(not hit) or c]
+    return out
+
+
+def one_seid_endpoint(self, res, old, ghost, i, hit, no_stream_cls, effect):
+    ep = self.local_endpoints[i]
+    oep = old.self.local_endpoints[i]
+    out = [
+        # the end point keeps its stream object; another end point's stream is not touched at all
+        same(ep, oep) and (same(ep.stream, oep.stream) if hit else stream_kept(ep, oep)),
+        implies(hit and oep.stream is None, isinstance(res, no_stream_cls) and (no_stream_cls is avdtp.Abort_Response or res.error_code == BAD_STATE)),
+        implies(hit and oep.stream is None, all_kept(self, old, ghost)),
+    ]
+    if oep.stream is not None:
+        return out + guarded(hit, effect(ep.stream, oep.stream.state, oep.stream.rtp_channel, res, old, ghost))
+    return out + [True, True, True, True]
+
+
+def one_seid_post(n, reject_cls, no_stream_cls, effect):
+    def post(self, command, res, old, ghost):
+        k = command.acp_seid
+        known = 0 < k and k <= n
+        out = [
+            implies(not known, isinstance(res, reject_cls) and (reject_cls is avdtp.Abort_Response or res.error_code == BAD_ACP_SEID)),
+            implies(not known, all_kept(self, old, ghost)),
+            table_kept(self, old) and len(self.local_endpoints) == n,
+        ]
+        for i in range(n):
+            out = out + one_seid_endpoint(self, res, old, ghost, i, k == i + 1, no_stream_cls, effect)
+        return out
+
+    return post
+
+
+def one_seid_names(n):
+    names = ['unknown-seid-rejected-bad-acp-seid', 'unknown-seid-nothing-changed', 'stream-table-and-endpoint-list-kept']
+    for i in range(n):
+        names += [f'{what}[{i + 1}]' for what in ['stream-object-kept-others-untouched', 'no-stream-rejected-bad-state', 'no-stream-nothing-changed'] + DELEGATED_NAMES]
+    return names
+
+
+ONE_SEID = [
+    # handler, command model, reject for an unknown SEID, answer when there is no stream, effect on the stream
+    ('on_reconfigure_command', 'bumble.avdtp:Reconfigure_Command#acp', avdtp.Reconfigure_Reject, avdtp.Reconfigure_Reject,
+     delegated(lambda s: s == OPEN, lambda ch: OPEN, L_ON_RECONFIGURE, avdtp.Reconfigure_Response)),
+    ('on_open_command', 'bumble.avdtp:Simple_Command#acp', avdtp.Open_Reject, avdtp.Open_Reject,
+     delegated(lambda s: s == CONFIGURED, lambda ch: OPEN, L_ON_OPEN, avdtp.Open_Response)),
+    ('on_close_command', 'bumble.avdtp:Simple_Command#acp', avdtp.Close_Reject, avdtp.Close_Reject,
+     delegated(lambda s: s == OPEN or s == STREAMING, lambda ch: IDLE if ch is None else CLOSING, L_ON_CLOSE, avdtp.Close_Response)),
+    # abort is never refused (AVDTP 8.16.2: no reject; an unknown SEID or an idle end point is answered with a plain response)
+    ('on_abort_command', 'bumble.avdtp:Simple_Command#acp', avdtp.Abort_Response, avdtp.Abort_Response,
+     delegated(lambda s: True, lambda ch: IDLE if ch is None else ABORTING, L_ON_ABORT, avdtp.Abort_Response, never_refused=True)),
+]
+
+for (_h, _cmd, _rej, _nostream, _eff) in ONE_SEID:
+    for _n in N_ENDPOINTS:
+        contract(
+            f'bumble.avdtp:Protocol.{_h}',
+            key=f'bumble.avdtp:Protocol.{_h}@e{_n}',
+            prop='C19',
+            params=dict(self=protocol_model(_n, 0), command=Inst(_cmd)),
+            ghost=ACP_GHOST,
+            ensures=one_seid_post(_n, _rej, _nostream, _eff),
+            ensures_names=one_seid_names(_n),
+            modifies=stream_mod(_n),
+            inline=INLINE + ['Protocol.get_local_endpoint_by_seid', 'Reconfigure_Reject.*', 'Reconfigure_Response.*', 'Open_Reject.*', 'Open_Response.*',
+                             'Close_Reject.*', 'Close_Response.*', 'Abort_Response.*'],
+            uses=[f'bumble.avdtp:Stream.{_h}'],
+            note=f'bounded: {_n} local end points; Protocol.streams is not read or written by this handler (frame condition), it is empty here',
         )
